@@ -90,7 +90,8 @@ BlankIdx(obs) == IF obs.def.tag = "variant"
 (***************************************************************************)
 (* Container attributes (derive/src/attr.rs Attributes::from_ast): a        *)
 (* sequence of items, possibly split over several #[scale_info(..)]; the    *)
-(* derive must reject: an unknown item, a repeated bounds / skip_type_params*)
+(* derive must reject: an unknown item (also the attribute written without  *)
+(* a parenthesised list), a repeated bounds / skip_type_params              *)
 (* / capture_docs / crate, an invalid capture_docs value, and a bounds(..)  *)
 (* that leaves a non-skipped type parameter unbound.  replace_segment may   *)
 (* repeat.  item = [k |-> kind, ...].  A bounds item lists in `ps` the       *)
